@@ -79,6 +79,15 @@ Fixpoint scan_back_ip (fuel : nat) (buf : list N) (out : nat) : nat :=
            then if nth (out - 1) buf 0 =? slash then out else scan_back_ip f buf (out - 1)
            else out
   end.
+(* the body of one iteration for the piece [start, start+len); at_end = (end == path.end()) *)
+Definition ip_body (buf : list N) (out start len : nat) (at_end : bool) : list N * nat :=
+  if (len =? 0)%nat || ((len =? 1)%nat && (nth start buf 0 =? dot)) then (buf, out)
+  else if (len =? 2)%nat && (nth start buf 0 =? dot) && (nth (S start) buf 0 =? dot) then
+    (buf, scan_back_ip out buf (if (1 <? out)%nat then (out - 1)%nat else out))
+  else
+    let buf1 := copy_fwd buf start out len in
+    let out1 := (out + len)%nat in
+    if at_end then (buf1, out1) else (set_nth buf1 out1 slash, S out1).
 Fixpoint ip_loop (fuel : nat) (buf : list N) (out start : nat) : list N * nat :=
   match fuel with
   | O => (buf, out)
@@ -86,15 +95,7 @@ Fixpoint ip_loop (fuel : nat) (buf : list N) (out start : nat) : list N * nat :=
     if (start <? length buf)%nat then
       let e := (start + find_slash (skipn start buf))%nat in
       let at_end := (e =? length buf)%nat in
-      let len := (e - start)%nat in
-      let r :=
-        if (len =? 0)%nat || ((len =? 1)%nat && (nth start buf 0 =? dot)) then (buf, out)
-        else if (len =? 2)%nat && (nth start buf 0 =? dot) && (nth (S start) buf 0 =? dot) then
-          (buf, scan_back_ip out buf (if (1 <? out)%nat then (out - 1)%nat else out))
-        else
-          let buf1 := copy_fwd buf start out len in
-          let out1 := (out + len)%nat in
-          if at_end then (buf1, out1) else (set_nth buf1 out1 slash, S out1) in
+      let r := ip_body buf out start (e - start) at_end in
       if at_end then r else ip_loop f (fst r) (snd r) (S e)
     else (buf, out)
   end.
@@ -273,13 +274,16 @@ End Env.
    Used (a) by the model driver as the operating system behind handle and (b) to show that the
    realpath contract assumed by the containment theorem is satisfiable. *)
 Inductive node := NDir | NReg (id : N) | NLink (target : list N) | NOther (mode : N).
-Definition fsdesc := list (list N * node).       (* absolute canonical path -> node; the root directory is implicit *)
+(* absolute canonical path, stored REVERSED (names differ at their end, so the comparison stops early) -> node;
+   the root directory is implicit *)
+Definition fsdesc := list (list N * node).
 
-Fixpoint fs_lookup (fs : fsdesc) (p : list N) : option node :=
+Fixpoint fs_lookup_rev (fs : fsdesc) (rp : list N) : option node :=
   match fs with
   | [] => None
-  | (q, n) :: t => if leqb q p then Some n else fs_lookup t p
+  | (q, n) :: t => if leqb q rp then Some n else fs_lookup_rev t rp
   end.
+Definition fs_lookup (fs : fsdesc) (p : list N) : option node := fs_lookup_rev fs (rev p).
 
 (* cur: resolved components, innermost first; todo: components still to walk *)
 Fixpoint rp_walk (fs : fsdesc) (fuel : nat) (cur : list (list N)) (todo : list (list N)) : option (list (list N)) :=
@@ -349,7 +353,7 @@ Definition fs_dir_entries (fs : fsdesc) (p : list N) : option (list (list N)) :=
   | Some q =>
       match (if leqb q [slash] then Some NDir else fs_lookup fs q) with
       | Some NDir => Some ([dot] :: [dot; dot] ::
-                           flat_map (fun e => match child_name q (fst e) with Some n => [n] | None => [] end) fs)
+                           flat_map (fun e => match child_name q (rev (fst e)) with Some n => [n] | None => [] end) fs)
       | _ => None
       end
   | None => None
